@@ -102,7 +102,52 @@ def extraction_small_documents(seed):
             'evaluations': n, 'failures': fails}
 
 
-QUICK_BOUNDED = [extraction_small_documents]
+def skip_pattern_bounded(seed):
+    """`--skip`: a file is left out iff its WHOLE name matches the regular
+    expression (the include loop treats skip_file as an opaque predicate).
+    The function skip_file of shell.py (a script: the def is taken from the
+    module AST and compiled as it is) against re.fullmatch on all names of
+    <= 4 pieces over {a, b, ., /, tex} and six patterns"""
+    import ast
+    import itertools
+    import re
+    import types
+    from pyvc import front
+    repo = front.repo()
+    mi = repo.modules['yalafi.shell.shell']
+    fdef = next(n for n in mi.tree.body if isinstance(n, ast.FunctionDef)
+                and n.name == 'skip_file')
+    code = compile(ast.Module(body=[fdef], type_ignores=[]), mi.path, 'exec')
+    n, fails = 0, []
+    pats = [None, 'a\\.tex', 'a|b', 'b/.*', '.*a', 'a.tex', '(a|b)\\.tex']
+    names = set()
+    for ln in range(1, 5):
+        for t in itertools.product(['a', 'b', '.', '/', 'tex'], repeat=ln):
+            names.add(''.join(t))
+    for pat in pats:
+        g = {'re': re, 'cmdline': types.SimpleNamespace(skip=pat)}
+        exec(code, g)
+        for fn in sorted(names):
+            n += 1
+            want = bool(pat) and re.fullmatch(pat, fn) is not None
+            try:
+                got = bool(g['skip_file'](fn))
+            except Exception as e:      # noqa
+                got = 'exception %r' % (e,)
+            if got != want:
+                fails.append({'skip': pat, 'file': fn, 'skipped': got,
+                              'expected': want})
+                if len(fails) >= 3:
+                    break
+        if len(fails) >= 3:
+            break
+    return {'name': 'skip-pattern-matches-whole-file-names',
+            'bounded': True,
+            'bound': '7 patterns x all names of <= 4 pieces over 5 pieces',
+            'evaluations': n, 'failures': fails}
+
+
+QUICK_BOUNDED = [extraction_small_documents, skip_pattern_bounded]
 
 TRUSTED = [
     'mechanical extraction (pyvc/front.py lift_include_loop): the module-level statements of yalafi/shell/shell.py from '
